@@ -19,3 +19,6 @@ void *vs_thread_create(vs_fn f, void *arg) {
     return t;
 }
 void vs_thread_join(void *h) { pthread_join(*(pthread_t *)h, NULL); free(h); }
+#include <stdio.h>
+void vs_violation(const char *msg) { fprintf(stdout, "{\"violation\":\"%s\"}\n", msg); fflush(stdout); _exit(1); }
+void vs_outcome(uint64_t h) { (void)h; }
